@@ -134,7 +134,7 @@ Lemma answer_ad_core E qname qtype cd resp pds zone m :
     in_zone qname s = true /\
     find_ds E (Some s) qname pds false = Ok ds /\ ds <> [] /\
     verify_dnssec E s resp ds = (true, None) /\
-    verify_wildcard (fun nc => e_wild E (m_id resp) nc s) (m_ans resp) true = (true, None).
+    verify_wildcard (fun nc => e_wild E (m_id resp) (denial_records (filter_zone (m_ns resp) s)) nc s) (m_ans resp) true = (true, None).
 Proof.
   intros Hdn Hv Hin Had. unfold validate_answer_core in Hv. rewrite Hdn in Hv.
   assert (Htgt : (if qtype =? T_CNAME then None else @None lookup) = None) by (destruct (qtype =? T_CNAME); reflexivity).
@@ -151,7 +151,7 @@ Proof.
   destruct (signer_loop E qname resp pds zone (s0 :: sl) None) as [e| |ok s] eqn:El; [discriminate| |].
   { injection Hv as <-. cbn in Had. congruence. }
   destruct ok.
-  - destruct (verify_wildcard (fun nc => e_wild E (m_id resp) nc s) (m_ans resp) true) as [sec [e|]] eqn:Ew; [discriminate|].
+  - destruct (verify_wildcard (fun nc => e_wild E (m_id resp) (denial_records (filter_zone (m_ns resp) s)) nc s) (m_ans resp) true) as [sec [e|]] eqn:Ew; [discriminate|].
     injection Hv as <-. cbn in Had. subst sec.
     apply signer_loop_verified in El as (Hs & Hvs & ds & Hfd & Hne & Hvd).
     exists s, ds. repeat split; auto.
@@ -169,11 +169,71 @@ Theorem answer_ad_partial_lemma E qname qtype cd resp0 pds zone m :
     in_zone qname s = true /\
     find_ds E (Some s) qname pds false = Ok ds /\ ds <> [] /\
     verify_dnssec E s resp ds = (true, None) /\
-    verify_wildcard (fun nc => e_wild E (m_id resp) nc s) (m_ans resp) true = (true, None).
+    verify_wildcard (fun nc => e_wild E (m_id resp) (denial_records (filter_zone (m_ns resp) s)) nc s) (m_ans resp) true = (true, None).
 Proof.
   intros resp Hdn Hv Hin Had. eapply answer_ad_core; eauto.
 Qed.
 
+
+(* ---- what the RFC 4035 §5.3.4 next-closer check is shown (seeded change C01-7) ----
+   VerifyRRSIG skips authority records owned outside the signer's zone (referral remnants), so nobody has
+   validated them; nextCloserDeniedWithWork's NSEC branch binds nothing to a zone.  answer() therefore filters the
+   authority section to the validated signer BEFORE the wildcard step.  In the model the verifier's input is
+   [denial_records (filter_zone (m_ns resp) s)]: *)
+Lemma denial_view_in_signer_zone_lemma ns s r :
+  In r (denial_records (filter_zone ns s)) ->
+  In r ns /\ in_zone (r_owner r) s = true /\
+  (forall nx, r_rd r = RdNsec nx -> in_zone nx s = true) /\
+  ((r_type r =? T_NSEC) || (r_type r =? T_NSEC3)) = true.
+Proof.
+  unfold denial_records, filter_zone. intros H.
+  apply filter_In in H as [H Ht]. apply filter_In in H as [Hin Hz].
+  apply andb_true_iff in Hz as [Hz Hn].
+  split; [exact Hin|]. split; [exact Hz|]. split; [|exact Ht].
+  intros nx Hrd. rewrite Hrd in Hn. exact Hn.
+Qed.
+
+(* padding the authority section with records owned outside the signer's zone — signed by somebody else or
+   not at all — changes nothing of what the next-closer check sees, wherever the padding is placed *)
+Lemma foreign_padding_inert_lemma ns pre post s :
+  (forall r, In r (pre ++ post) -> in_zone (r_owner r) s = false) ->
+  denial_records (filter_zone (pre ++ ns ++ post) s) = denial_records (filter_zone ns s).
+Proof.
+  intros Hf. unfold filter_zone.
+  assert (Hnil : forall l, (forall r, In r l -> in_zone (r_owner r) s = false) ->
+            filter (fun r => in_zone (r_owner r) s && match r_rd r with RdNsec nx => in_zone nx s | _ => true end) l = []).
+  { induction l as [|x l IH]; intros Hl; [reflexivity|]. cbn [filter].
+    rewrite (Hl x (or_introl eq_refl)). cbn. apply IH. intros r Hr. apply Hl. right. exact Hr. }
+  rewrite !filter_app.
+  rewrite (Hnil pre), (Hnil post).
+  - cbn [app]. rewrite app_nil_r. reflexivity.
+  - intros r Hr. apply Hf. apply in_or_app. right. exact Hr.
+  - intros r Hr. apply Hf. apply in_or_app. left. exact Hr.
+Qed.
+
+(* …and so does an NSEC owned inside the zone whose next name points out of it (a span forged to straddle qname) *)
+Lemma straddling_nsec_inert_lemma ns s r nx :
+  r_rd r = RdNsec nx -> in_zone nx s = false ->
+  denial_records (filter_zone (r :: ns) s) = denial_records (filter_zone ns s).
+Proof.
+  intros Hrd Hnx. unfold filter_zone. cbn [filter]. rewrite Hrd, Hnx, andb_false_r. reflexivity.
+Qed.
+
+(* the whole validator, not only the view: with the same oracles, answer() gives the same verdict whether or not
+   foreign NSEC/NSEC3 padding accompanies the answer — provided the signature pass gives the same verdict, which
+   is what [verify_rrsig]'s skip of out-of-zone authority records is for (collect, Proofs_sig) *)
+Lemma wildcard_step_ignores_foreign_padding_lemma E id ans ns pre post s :
+  (forall r, In r (pre ++ post) -> in_zone (r_owner r) s = false) ->
+  verify_wildcard (fun nc => e_wild E id (denial_records (filter_zone (pre ++ ns ++ post) s)) nc s) ans true =
+  verify_wildcard (fun nc => e_wild E id (denial_records (filter_zone ns s)) nc s) ans true.
+Proof. intros Hf. rewrite (foreign_padding_inert_lemma ns pre post s Hf). reflexivity. Qed.
+
+(* the seeded variant — the check run on the unfiltered section — is shown the foreign record *)
+Example unfiltered_view_is_shown_the_foreign_nsec :
+  let z := [5; 1] in let sib_lo := [4; 1] in let sib_hi := [6; 1] in
+  let foreign := mk_rr sib_lo T_NSEC 1 9 (RdNsec sib_hi) in
+  denial_records (filter_zone [foreign] z) = [] /\ denial_records [foreign] = [foreign].
+Proof. vm_compute. split; reflexivity. Qed.
 
 (* ------------------------------------------- answer(): AD=1 means zone-signed data *)
 Section AnswerSound.
